@@ -6,6 +6,7 @@ open Lean YV YV.X YV.XL YV.XP YV.Drv YV.Drv.XB
 def scopeMap : String → List (String × String)
   | "b" => [("b", "urn:b"), ("x", "urn:c")]
   | "m" => [("m", "urn:m"), ("b", "urn:b"), ("y", "urn:c"), ("x", "urn:d")]
+  | "ms" => [("w", "urn:e")]      -- submodule ms of m: its own import
   | _ => [("a2", "urn:a2"), ("m", "urn:m"), ("z", "urn:c")]
 
 def runesCSV (l : List Rune) : String := String.intercalate "," (l.map toString)
@@ -45,7 +46,11 @@ def handle (j : Json) : List (String × Json) :=
      ("mr", get "m.path" "path" .leafref "urn:m"),
      ("al", get "a2.must" "must" .expr "urn:a2" ++ get "a2.must2" "must" .expr "urn:a2" ++ get "a2.when" "when/false" .expr "urn:a2" ++ get "a2.augwhen" "when/true" .expr "urn:a2"),
      ("mk", get "m.keymust" "must" .expr "urn:m" ++ get "m.keywhen" "when/false" .expr "urn:m"),
-     ("bk", get "m.kuwhen" "when/false" .expr "urn:m")]
+     ("bk", get "m.kuwhen" "when/false" .expr "urn:m"),
+     -- a leaf-list of b's grouping: its own must, one more by a refine in m, the when of the uses
+     ("bll", get "b.llmust" "must" .expr "urn:m" ++ get "m.llrefmust" "must" .expr "urn:m" ++ get "m.useswhen" "when/false" .expr "urn:m"),
+     -- in the input of an rpc that a submodule of m defines: an expression of m
+     ("sx", get "s.rpcmust" "must" .expr "urn:m")]
   let out :=
     if nodes.any (fun (_, os) => os.any (·.isNone)) then "err names-expression+statement"
     else "ok\n" ++ "\n".intercalate (nodes.map fun (n, os) => n ++ ":" ++ ",".intercalate (sortStrs (os.filterMap id)))
